@@ -164,9 +164,6 @@ func c01run(run *vlab.Run, dir string, c *c01case) {
 	key := c.Scan + ":" + c.Mode
 	if len(missing) > 0 {
 		k := "target-missing:" + key
-		if c.Mode == "addrfile-stdin" {
-			k = "stdin-multiport"
-		}
 		run.Violation(k, fmt.Sprintf("%d probes expected, %d seen; never probed: %s: %+v", total, len(obs.probes), desc(missing), c), c)
 	}
 	if len(extra) > 0 {
